@@ -79,7 +79,7 @@ def family(nslots, edge_menu=(None, "a", "d", "ad"), attach_menu=(None, "a", "d"
 def S(): return {"kind": "S"}
 def C(*a, deps=()): return _mk("C", a, deps)
 def U(*a, deps=()): return _mk("U", a, deps)
-def W(t, *a, deps=()): d = _mk("W", a, deps); d["target"] = t; return d
+def W(t, *a, deps=()): d = _mk("W", a, deps); d["target"] = t; return d  # t: one store index or a list
 def D(*deps): return {"kind": "D", "deps": list(deps)}
 def L(*deps): return {"kind": "L", "deps": list(deps)}
 def A(of, *deps): return {"kind": "A", "of": of, "deps": [of] + list(deps)}
@@ -115,6 +115,18 @@ CURATED = {
     # a dependent source whose Barrier keeps its own node (m predecessors x n successors with m*n > m+n)
     "barrier-hub-3x2": [S(), W(4, 0), U(0), U(0), D(1, 2, 3), C(4), U(deps=[4])],
     "barrier-hub-2x3": [S(), W(3, 0), U(0), D(1, 2), C(3), U(deps=[3]), U(deps=[3])],
+    # two dependent sources chained directly (the second depends on the first), both written by one producer
+    # (the producer is a direct dependency of both: a source must depend on the call that writes it)
+    "dependent-source-pair": [S(), W([2, 3], 0), D(1), D(1, 2), C(3)],
+    "dependent-source-pair-both-consumed": [S(), W([2, 3], 0), D(1), D(1, 2), C(2, 3)],
+    # the second source depends on the first one only (both are written in one atomic step by the producer)
+    # ("keep": it is never deleted on its own - without its sibling being stale nothing would rewrite it)
+    "dependent-source-chained": [S(), W([2, 3], 0), D(1), dict(D(2), keep=True), C(3)],
+    "dependent-source-chained-reader": [S(), W([2, 3], 0), D(1), dict(D(2), keep=True), U(deps=[3]), C(2, 3)],
+    # a predecessor without any modified time enumerated BEFORE the timed one
+    "timeless-pred-first": [U(), S(), C(0, 1)],
+    "timeless-pred-first-unstored-join": [U(), S(), U(0, 1), C(2)],
+    "timeless-dep-first": [U(), S(), C(1, deps=[0])],
     "literal-arg-with-dependency": [S(), C(0), L(1), C(2)],
     "literal-dep-with-dependency": [S(), C(0), L(1), C(deps=[2])],
     "literal-hub": [S(), C(0), U(0), L(1, 2), C(3), U(deps=[3])],
@@ -148,7 +160,7 @@ def has_registered_dependency(spec):
     return any(nd["kind"] in TIMED and any(spec[a]["kind"] in TIMED for a in anc[i]) for i, nd in enumerate(spec))
 
 
-POPS_QUICK = ("dependent-source", "alias-source-consumed", "literal-arg-with-dependency", "plain-dep-chain", "two-sources-shared", "fam1")
+POPS_QUICK = ("dependent-source-chained", "dependent-source", "alias-source-consumed", "literal-arg-with-dependency", "plain-dep-chain", "two-sources-shared", "fam1")
 
 
 def thorough_specs():
